@@ -59,6 +59,14 @@ struct S3 {
   int n;
   NOP_STRUCTURE(S3, (w, n));
 };
+// non-integral logical buffer with one-byte elements and a one-byte size member: a hostile count that only fits a
+// wider class reaches the element loop within a few input bytes
+using OptB = nop::Optional<bool>;
+struct S4 {
+  OptB e[2];
+  std::uint8_t n;
+  NOP_STRUCTURE(S4, (e, n));
+};
 struct V1 {
   std::uint16_t v;
   NOP_VALUE(V1, v);
@@ -205,6 +213,41 @@ struct Gen<S3> {
 };
 
 template <>
+struct Fmt<S4> {
+  static void enc(fmt::Out& o, const S4& v) {
+    fmt::enc_header(o, FMT_STU, 1);
+    fmt::enc_header(o, FMT_ARY, v.n);
+    for (std::size_t i = 0; i < 2; i++)
+      if (i < v.n) Fmt<OptB>::enc(o, v.e[i]);
+  }
+  static bool dec(fmt::In& in, S4* v) {
+    if (!fmt::dec_header_fixed(in, FMT_STU, 1, nop::ErrorStatus::InvalidMemberCount)) return false;
+    if (!fmt::expect_prefix(in, FMT_ARY)) return false;
+    std::uint64_t cnt;
+    if (!fmt::dec_uint(in, 8, &cnt)) return false;
+    if (cnt > 2) return fmt::fail(in, nop::ErrorStatus::InvalidContainerLength);
+    for (std::size_t i = 0; i < 2; i++)
+      if (i < cnt && !Fmt<OptB>::dec(in, &v->e[i])) return false;
+    v->n = static_cast<std::uint8_t>(cnt);
+    return true;
+  }
+};
+template <>
+struct Gen<S4> {
+  static void make(S4* v) {
+    Gen<OptB>::make(&v->e[0]);
+    Gen<OptB>::make(&v->e[1]);
+    v->n = nondet<std::uint8_t>();
+    vt_assume(v->n <= 2);
+  }
+  static bool eq(const S4& a, const S4& b) {
+    bool r = a.n == b.n;
+    for (std::size_t i = 0; i < 2; i++)
+      if (i < a.n) r = r && Gen<OptB>::eq(a.e[i], b.e[i]);
+    return r;
+  }
+};
+template <>
 struct Fmt<V1> {  // a value wrapper is encoded exactly as the wrapped value
   static void enc(fmt::Out& o, const V1& v) { Fmt<std::uint16_t>::enc(o, v.v); }
   static bool dec(fmt::In& in, V1* v) { return Fmt<std::uint16_t>::dec(in, &v->v); }
@@ -246,6 +289,7 @@ VT_COMP(vt::TupleT, tuple, 11)
 VT_COMP(vt::S1, s1, 18)
 VT_COMP(vt::S2, s2, 20)
 VT_COMP(vt::S3, s3, 12)
+VT_COMP(vt::S4, s4, 12)
 VT_COMP(vt::V1, v1, 5)
 VT_COMP(vt::OptI32, opti32, 7)
 VT_COMP(vt::ResU16, resu16, 8)
